@@ -401,6 +401,19 @@ def check_pruning(rep, tier, seed):
                  ("8/4pk2/8/5PK1/1P5p/8/6P1/8 w - - 0 1", 3), ("7k/8/1P6/4p3/3N4/8/8/6K1 w - - 0 1", 2)]:
         cases.append(["new " + f, "obs", "ttnew", "search %d -1 1" % d] + ["refroot %d" % k for k in range(1, d + 1)]
                      + ["ttnew", "searchroot %d -1 1" % d])
+    # promotions in which the queen stalemates and an under-promotion is strictly best, at the root and one ply below it
+    # (seeded change C09-r6m1: "dominated" promotions dropped at interior nodes)
+    for f in ["8/6P1/7k/7p/7K/8/8/8 w - - 0 1", "8/6Pp/7k/8/6K1/8/8/8 w - - 0 1", "8/k1P5/2p5/2K5/8/8/8/8 w - - 0 1",
+              "8/6P1/6k1/7p/7K/8/8/8 b - - 0 1", "8/6Pk/8/7p/7K/8/8/8 b - - 0 1", "8/6Pp/6k1/8/6K1/8/8/8 b - - 0 1",
+              "8/2P5/k1p5/2K5/8/8/8/8 b - - 0 1", "8/1kP5/2p5/2K5/8/8/8/8 b - - 0 1", "k7/2P5/2p5/2K5/8/8/8/8 b - - 0 1",
+              "8/8/8/8/7k/7P/6p1/6K1 b - - 0 1"[:0] or "8/8/8/7k/7P/7K/6p1/8 b - - 0 1", "8/8/8/8/6k1/8/6pP/7K w - - 0 1"]:
+        cases.append(["new " + f, "obs", "ttnew", "search 3 -1 1", "refroot 1", "refroot 2", "refroot 3", "ttnew", "searchroot 3 -1 1"])
+    # promotion races in which a rook or bishop promotion at an INTERIOR node decides the value (found by searching the
+    # K+P v K+P family with that seeded change applied; kept as a regression corpus)
+    for f in ["3K4/6P1/2k5/8/8/8/1p6/8 b - - 0 1", "8/1P6/3K4/7k/8/8/2p5/8 b - - 0 1", "8/2P5/5k1K/8/8/8/5p2/8 w - - 0 1",
+              "8/3P4/8/5k2/8/3K4/p7/8 b - - 0 1", "8/6KP/8/1k6/8/8/3p4/8 b - - 0 1", "8/P1K5/4k3/8/8/8/4p3/8 w - - 0 1",
+              "8/P5k1/8/8/K7/8/6p1/8 b - - 0 1", "8/P7/3K4/1k6/8/8/1p6/8 w - - 0 1", "8/P7/8/2k5/8/8/2p4K/8 w - - 0 1"]:
+        cases.append(["new " + f, "obs", "ttnew", "search 4 -1 1", "refroot 1", "refroot 2", "refroot 3", "refroot 4"])
     # sparse pawn endings built around a double push that lands beside an enemy pawn (en passant inside the tree)
     for i in range(40 if tier == "quick" else 1500):
         fl = r.randrange(8)
